@@ -8,5 +8,6 @@ CONSTANTS
   MaxStepFaults = 1000000
   Vs <- TVs
   WithRelease = TRUE
+  MaxSess = 1000000
 CONSTRAINT Done
 CHECK_DEADLOCK FALSE
